@@ -717,3 +717,391 @@ Proof.
   - intros e He Q. rewrite (kctl_open _ _ _ K). apply (dy_tfdent e); [|assumption].
     apply (fs_epneg _ _ _ S); [lia|assumption].
 Qed.
+
+Lemma kind_neq : forall k a b va vb, k_open k a = Some va -> k_open k b = Some vb -> vkind va <> vkind vb -> a <> b.
+Proof. intros k a b va vb A B N E. subst. congruence. Qed.
+Lemma peer_neq : forall k a b va vb, k_open k a = Some va -> k_open k b = Some vb -> vpeer va <> vpeer vb -> a <> b.
+Proof. intros k a b va vb A B N E. subst. congruence. Qed.
+
+Lemma raw_facts : forall s j, InvE s -> rw_reg s j = true ->
+  let r := rw_rfd s j in let w := rw_wfd s j in let key := 16 + j in
+  0 <= j <= 16 /\ registered (fdt s key) = true /\ fdnum (fdt s key) = r /\ 1000 <= r /\
+  (forall k', k' <> key -> registered (fdt s k') = true ->
+     fdnum (fdt s k') <> r /\ (efd_raw s = 0 -> fdnum (fdt s k') <> w)) /\
+  (forall j', j' <> j -> rw_reg s j' = true ->
+     rw_rfd s j' <> r /\ rw_wfd s j' <> r /\ (efd_raw s = 0 -> rw_rfd s j' <> w /\ rw_wfd s j' <> w)) /\
+  (active_ref s = 1 -> active_fd s <> r /\ active_wr s <> r /\ (efd_raw s = 0 -> active_fd s <> w /\ active_wr s <> w)) /\
+  (if efd_raw s =? 0 then pipe_ok (kern s) r w else evfd_ok (kern s) r w).
+Proof.
+  intros s j I RJ r w key. pose proof (ie_fd _ I) as FI. pose proof (ie_dyn _ I) as DI.
+  pose proof (dy_range _ DI j RJ) as J.
+  assert (RK : registered (fdt s key) = true) by (subst key; rewrite (dy_reg _ DI j J); assumption).
+  destruct (dy_obj _ DI j RJ) as (FN & _). fold key r in FN.
+  pose proof (dy_kern _ DI j RJ) as KJ. fold r w in KJ.
+  assert (LK : live s (-1) key) by (apply (live_reg _ _ _ FI RK)).
+  assert (R1000 : 1000 <= r) by (rewrite <- FN; apply (fv_dyn _ _ FI); [subst key; lia|assumption]).
+  assert (RAWK : forall k', registered (fdt s k') = true -> 16 <= k' ->
+            exists j', k' = 16 + j' /\ rw_reg s j' = true /\ fdnum (fdt s k') = rw_rfd s j').
+  { intros k' R' G. pose proof (fv_range _ _ FI k' R'). exists (k' - 16).
+    assert (Q : k' = 16 + (k' - 16)) by lia. split; [assumption|].
+    assert (RR : rw_reg s (k' - 16) = true) by (rewrite <- (dy_reg _ DI (k' - 16)) by lia; rewrite <- Q; assumption).
+    split; [assumption|]. destruct (dy_obj _ DI _ RR) as (A & _). rewrite <- Q in A. assumption. }
+  assert (INJ : forall j', j' <> j -> rw_reg s j' = true -> rw_rfd s j' <> r).
+  { intros j' N R' Q. pose proof (dy_range _ DI j' R') as J'.
+    destruct (dy_obj _ DI j' R') as (A & _).
+    assert (16 + j' = key); [|subst key; lia].
+    apply (fv_inj _ _ FI); [apply (live_reg _ _ _ FI); rewrite (dy_reg _ DI j' J'); assumption|assumption|congruence]. }
+  split; [assumption|]. split; [assumption|]. split; [assumption|]. split; [assumption|].
+  destruct (Z.eqb_spec (efd_raw s) 0) as [Z0|NZ].
+  - (* pipes *)
+    destruct KJ as (_ & W1000 & v & vw & OR & KR & PR & PO & OW & KW & PW).
+    assert (PJ : forall j', rw_reg s j' = true -> pipe_ok (kern s) (rw_rfd s j') (rw_wfd s j')).
+    { intros j' R'. pose proof (dy_kern _ DI j' R') as Q. rewrite Z0 in Q. exact Q. }
+    split; [|split; [|split]].
+    + intros k' N R'. split.
+      * rewrite <- FN. intro Q. apply N. apply (fv_inj _ _ FI); [apply (live_reg _ _ _ FI R')|assumption|assumption].
+      * intros _. destruct (Z_lt_ge_dec k' 16) as [Lt|Ge].
+        -- pose proof (fv_range _ _ FI k' R'). rewrite (fv_user _ _ FI k') by lia. lia.
+        -- destruct (RAWK k' R' ltac:(lia)) as (j' & -> & R'' & ->).
+           destruct (PJ j' R'') as (_ & _ & v' & _ & O' & K' & _).
+           eapply kind_neq; [exact O'|exact OW|]. rewrite K', KW. discriminate.
+    + intros j' N R'. destruct (PJ j' R') as (_ & _ & v' & vw' & O' & K' & P' & _ & OW' & KW' & PW').
+      split; [apply INJ; assumption|]. split.
+      * eapply kind_neq; [exact OW'|exact OR|]. rewrite KW', KR. discriminate.
+      * intros _. split.
+        -- eapply kind_neq; [exact O'|exact OW|]. rewrite K', KW. discriminate.
+        -- eapply peer_neq; [exact OW'|exact OW|]. rewrite PW', PW. apply INJ; assumption.
+    + intros A. destruct (dy_act _ DI A) as (X & (va & OA & KA) & WA).
+      pose proof (dy_actraw _ DI A j RJ) as NA. fold r in NA.
+      assert (AR : active_fd s <> r) by congruence.
+      assert (AW : active_fd s <> w).
+      { eapply kind_neq; [exact OA|exact OW|]. rewrite KW. destruct KA as [-> | ->]; discriminate. }
+      destruct WA as [WA|(_ & _ & va' & vwa & OA' & KA' & PA' & _ & OWA & KWA & PWA)].
+      * rewrite WA. repeat split; try assumption; lia.
+      * split; [assumption|]. split; [eapply kind_neq; [exact OWA|exact OR|]; rewrite KWA, KR; discriminate|].
+        intros _. split; [assumption|]. eapply peer_neq; [exact OWA|exact OW|]. rewrite PWA, PW. assumption.
+    + split; [assumption|]. split; [assumption|]. exists v, vw. tauto.
+  - (* eventfds *)
+    destruct KJ as (_ & WR & v & OR & KR).
+    assert (EJ : forall j', rw_reg s j' = true -> evfd_ok (kern s) (rw_rfd s j') (rw_wfd s j')).
+    { intros j' R'. pose proof (dy_kern _ DI j' R') as Q. destruct (Z.eqb_spec (efd_raw s) 0); [contradiction|exact Q]. }
+    split; [|split; [|split]].
+    + intros k' N R'. split; [|intros; contradiction].
+      rewrite <- FN. intro Q. apply N. apply (fv_inj _ _ FI); [apply (live_reg _ _ _ FI R')|assumption|assumption].
+    + intros j' N R'. destruct (EJ j' R') as (_ & WR' & _).
+      split; [apply INJ; assumption|]. split; [rewrite WR'; apply INJ; assumption|intros; contradiction].
+    + intros A. destruct (dy_act _ DI A) as (X & (va & OA & KA) & WA).
+      pose proof (dy_actraw _ DI A j RJ) as NA. fold r in NA.
+      split; [congruence|]. split; [|intros; contradiction].
+      destruct WA as [WA|(_ & _ & va' & vwa & OA' & KA' & PA' & _ & OWA & KWA & PWA)]; [rewrite WA; lia|].
+      eapply kind_neq; [exact OWA|exact OR|]. rewrite KWA, KR. discriminate.
+    + split; [assumption|]. split; [assumption|]. exists v. tauto.
+Qed.
+
+Definition RawUnPost (j : Z) (s s' : core) : Prop :=
+  InvE s' /\ Fr s s' /\ EvFr s s' /\ rw_reg s' = upd (rw_reg s) j false /\ numobjs s' = numobjs s - 1.
+
+Lemma EvFr_coresame : forall s s', coresame s s' -> EvFr s s'.
+Proof. intros s s' []. constructor; assumption. Qed.
+
+Lemma raw_unregister_ok : forall s j, InvE s -> rw_reg s j = true -> okr (RawUnPost j s) (raw_unregister s j).
+Proof.
+  intros s j I RJ. rewrite raw_unregister_unfold. unfold RAW_KEY.
+  destruct (raw_facts s j I RJ) as (J & RK & FN & R1000 & FK & FJ & FA & KJ). cbv zeta in *.
+  set (key := 16 + j) in *. set (r := rw_rfd s j) in *. set (w := rw_wfd s j) in *.
+  eapply okr_bind; [apply (fd_unregister_ok s key (ie_fd _ I) RK)|].
+  intros s1 (I1 & S1 & R1 & W1 & NA1 & NN1 & NP1 & NH1 & EF1 & A1 & H1 & NF1 & NO1). cbn [okr].
+  pose proof (fs_rest _ _ _ S1) as RS. pose proof (fs_kctl _ _ _ S1) as K1.
+  assert (ER : efd_raw s1 = efd_raw s) by apply (rs_er _ _ RS).
+  assert (RR : rw_reg s1 = rw_reg s) by apply (rs_rr _ _ RS).
+  assert (RF : rw_rfd s1 = rw_rfd s) by apply (rs_rf _ _ RS).
+  assert (RWF : rw_wfd s1 = rw_wfd s) by apply (rs_rwf _ _ RS).
+  rewrite RF, RWF. fold r w.
+  set (s1' := set_rw s1 (upd (rw_reg s1) j false) (rw_rfd s) (rw_wfd s)).
+  assert (I1' : InvE s1').
+  { constructor.
+    - eapply FdInv_eq; [exact I1|intros; tauto|reflexivity..].
+    - intros k0. apply sync_at_same with (s := s1); try reflexivity.
+      destruct (Z.eq_dec k0 key) as [->|N]; [unfold sync_at; rewrite R1; discriminate|].
+      apply (fs_sync _ _ _ S1); [assumption|apply (ie_sync _ I)].
+    - subst s1'. rewrite <- RF, <- RWF. apply (DynInv_unreg s s1 j (ie_dyn _ I) S1 J R1).
+    - change (heap s1') with (heap s1). rewrite (rs_heap _ _ RS). apply (ie_heap _ I).
+    - apply (TaskInv_same s); [apply (rs_tasks _ _ RS)|apply (rs_cur _ _ RS)|apply (ie_task _ I)].
+    - assert (AC : Acct s1).
+      { assert (KR : 0 <= key <= 32) by (subst key; lia).
+        apply (Acct_fd key s s1 (-1) (ie_acct _ I) S1 KR); [right; right; tauto|lia|lia]. }
+      destruct AC. constructor; assumption.
+    - apply (Misc_same s1); [reflexivity..|]. eapply Misc_step; [exact S1|apply (ie_misc _ I)]. }
+  assert (F1 : Fr s s1') .
+  { eapply Fr_trans with (b := s1).
+    - apply (Fr_fdstep key); [assumption|rewrite A1; apply remz_length|assumption].
+    - constructor; subst s1'; sp; try reflexivity; try lia; try tauto. }
+  assert (E1 : EvFr s s1').
+  { destruct RS. constructor; subst s1'; sp; assumption. }
+  assert (HS : forall k0, fdnum (fdt s1 k0) = fdnum (fdt s k0)) by (intros k0; apply (fs_hsame _ _ _ S1 k0)).
+  assert (REGK : forall k', registered (fdt s1 k') = true -> k' <> key /\ registered (fdt s k') = true).
+  { intros k' Q. assert (N : k' <> key) by (intro; subst; congruence). split; [assumption|].
+    rewrite <- (fs_reg _ _ _ S1) by assumption. assumption. }
+  assert (REGJ : forall j', upd (rw_reg s1) j false j' = true -> j' <> j /\ rw_reg s j' = true).
+  { intros j'. unfold upd. destruct (Z.eqb_spec j' j); [discriminate|]. rewrite RR. tauto. }
+  (* first close *)
+  assert (U1 : unref s1' r).
+  { split; [|split].
+    - intros k' Q. change (fdt s1') with (fdt s1) in *. destruct (REGK k' Q) as [N Q']. rewrite HS. apply (FK k' N Q').
+    - intros j' Q. change (rw_reg s1') with (upd (rw_reg s1) j false) in Q. destruct (REGJ j' Q) as [N Q'].
+      change (rw_rfd s1') with (rw_rfd s). change (rw_wfd s1') with (rw_wfd s). destruct (FJ j' N Q') as (A & B & _). tauto.
+    - change (active_ref s1') with (active_ref s1). rewrite (rs_ar _ _ RS).
+      change (active_fd s1') with (active_fd s1). change (active_wr s1') with (active_wr s1).
+      rewrite (rs_af _ _ RS), (rs_aw _ _ RS). intros Q. destruct (FA Q) as (A & B & _). tauto. }
+  assert (KO : forall x, k_open (kern s1') x = k_open (kern s) x) by (intros; apply (kctl_open _ _ _ K1)).
+  assert (P1 : forall v, k_open (kern s1') r = Some v -> is_pipe v = true -> unrefR s1' (vpeer v)).
+  { intros v O PK. rewrite KO in O. destruct (Z.eqb_spec (efd_raw s) 0) as [Z0|NZ].
+    - destruct KJ as (_ & _ & v0 & vw & OR & KR & PR & _). rewrite OR in O. injection O as <-. rewrite PR.
+      split.
+      + intros j' Q. change (rw_reg s1') with (upd (rw_reg s1) j false) in Q. destruct (REGJ j' Q) as [N Q'].
+        change (rw_rfd s1') with (rw_rfd s). destruct (FJ j' N Q') as (_ & _ & C). apply C. assumption.
+      + change (active_ref s1') with (active_ref s1). rewrite (rs_ar _ _ RS).
+        change (active_fd s1') with (active_fd s1). rewrite (rs_af _ _ RS). intros Q.
+        destruct (FA Q) as (_ & _ & C). apply C. assumption.
+    - destruct KJ as (_ & _ & v0 & OR & KR). rewrite OR in O. injection O as <-.
+      unfold is_pipe in PK. rewrite KR in PK. discriminate. }
+  destruct (do_close_ok s1' r I1' U1 P1) as (I2 & F2 & C2 & G2 & O2 & B2). cbv zeta in *.
+  unfold close_pair. cbv zeta. set (s2 := do_close s1' r) in *.
+  assert (ER2 : efd_raw s2 = efd_raw s) by (rewrite (cs_er _ _ C2); subst s1'; sp; assumption).
+  assert (POST : forall s3, InvE s3 -> Fr s2 s3 -> coresame (set_kern s2 (kern s3)) s3 -> RawUnPost j s s3).
+  { intros s3 I3 F3 C3. unfold RawUnPost. split; [assumption|].
+    split; [eapply Fr_trans; [exact F1|]; eapply Fr_trans; eassumption|].
+    assert (E2 : EvFr s1' s2).
+    { apply EvFr_trans with (b := set_kern s1' (kern s2)); [constructor; reflexivity|apply (EvFr_coresame _ _ C2)]. }
+    assert (E3 : EvFr s2 s3).
+    { apply EvFr_trans with (b := set_kern s2 (kern s3)); [constructor; reflexivity|apply (EvFr_coresame _ _ C3)]. }
+    split; [eapply EvFr_trans; [exact E1|]; eapply EvFr_trans; eassumption|].
+    split.
+    - rewrite (cs_rr _ _ C3). change (rw_reg (set_kern s2 (kern s3))) with (rw_reg s2).
+      rewrite (cs_rr _ _ C2). subst s1'. sp. rewrite RR. reflexivity.
+    - rewrite (cs_numobjs _ _ C3). change (numobjs (set_kern s2 (kern s3))) with (numobjs s2).
+      rewrite (cs_numobjs _ _ C2). subst s1'. sp. assumption. }
+  rewrite ER2. destruct (Z.eqb_spec (efd_raw s) 0) as [Z0|NZ].
+  - (* second close *)
+    destruct KJ as (_ & W1000 & v0 & vw & OR & KR & PR & PO & OW & KW & PW).
+    assert (FD2 : fdt s2 = fdt s1) by (rewrite (cs_fdt _ _ C2); reflexivity).
+    assert (U2 : unref s2 w).
+    { split; [|split].
+      - intros k' Q. rewrite FD2 in *. destruct (REGK k' Q) as [N Q']. rewrite HS. destruct (FK k' N Q') as [_ B]. apply B. assumption.
+      - intros j' Q. rewrite (cs_rr _ _ C2) in Q. change (rw_reg (set_kern s1' (kern s2))) with (upd (rw_reg s1) j false) in Q.
+        destruct (REGJ j' Q) as [N Q']. rewrite (cs_rf _ _ C2), (cs_rwf _ _ C2).
+        change (rw_rfd (set_kern s1' (kern s2))) with (rw_rfd s). change (rw_wfd (set_kern s1' (kern s2))) with (rw_wfd s).
+        destruct (FJ j' N Q') as (_ & _ & C). apply C. assumption.
+      - rewrite (cs_ar _ _ C2), (cs_af _ _ C2), (cs_aw _ _ C2).
+        change (active_ref (set_kern s1' (kern s2))) with (active_ref s1). change (active_fd (set_kern s1' (kern s2))) with (active_fd s1).
+        change (active_wr (set_kern s1' (kern s2))) with (active_wr s1).
+        rewrite (rs_ar _ _ RS), (rs_af _ _ RS), (rs_aw _ _ RS). intros Q. destruct (FA Q) as (_ & _ & C). apply C. assumption. }
+    assert (P2 : forall v, k_open (kern s2) w = Some v -> is_pipe v = true -> unrefR s2 (vpeer v)).
+    { intros v O _. destruct (B2 w v O) as (vv & OV & _ & PV). rewrite KO, OW in OV. injection OV as <-.
+      rewrite <- PV, PW. split.
+      - intros j' Q. rewrite (cs_rr _ _ C2) in Q. change (rw_reg (set_kern s1' (kern s2))) with (upd (rw_reg s1) j false) in Q.
+        destruct (REGJ j' Q) as [N Q']. rewrite (cs_rf _ _ C2). change (rw_rfd (set_kern s1' (kern s2))) with (rw_rfd s).
+        destruct (FJ j' N Q') as (A & _). exact A.
+      - rewrite (cs_ar _ _ C2), (cs_af _ _ C2).
+        change (active_ref (set_kern s1' (kern s2))) with (active_ref s1). change (active_fd (set_kern s1' (kern s2))) with (active_fd s1).
+        rewrite (rs_ar _ _ RS), (rs_af _ _ RS). intros Q. destruct (FA Q) as (A & _). exact A. }
+    destruct (do_close_ok s2 w I2 U2 P2) as (I3 & F3 & C3 & _). cbv zeta in *.
+    apply POST; assumption.
+  - apply POST; [assumption|apply Fr_refl|].
+    assert (Q : set_kern s2 (kern s2) = s2) by (destruct s2; reflexivity). rewrite Q. cs_refl.
+Qed.
+
+(* ---------- raw-event actions ---------- *)
+Lemma InvW_of_raw : forall s s', InvW s -> InvE s' -> EvFr s s' -> rw_reg s' 16 = rw_reg s 16 -> InvW s'.
+Proof. intros s s' I E F R. apply InvE_InvW; [assumption|]. eapply EvInv_frame; [eassumption..|apply (iw_ev _ I)]. Qed.
+
+Lemma Fr_emit : forall s e, Fr s (emit s e).
+Proof. intros. constructor; sp; try reflexivity; try lia; tauto. Qed.
+
+Lemma StepW_emit : forall s0 s e, StepW s0 s -> e <> TCrash -> e <> TFatal -> StepW s0 (emit s e).
+Proof.
+  intros s0 s e [I F] A B. split; [apply InvW_emit; assumption|eapply Fr_trans; [exact F|apply Fr_emit]].
+Qed.
+
+Lemma act_rw_reg : forall s j, InvW s -> 0 <= j < 16 -> rw_reg s j = false ->
+  okr (StepW s) (let '(r, failed) := raw_register s j in
+                 bind r (fun s => R (emit s (TRes 2 j (if failed then -1 else 0))))).
+Proof.
+  intros s j I J RF. pose proof (raw_register_ok s j (InvW_InvE _ I) ltac:(lia) RF) as H.
+  destruct (raw_register s j) as [r failed]. cbn [fst snd] in H.
+  eapply okr_bind; [exact H|]. intros s' P. cbn [okr]. apply StepW_emit; try discriminate.
+  destruct failed; cbn [RawRes] in P.
+  - destruct P as (A & B & C & D & _). split; [|assumption]. apply (InvW_of_raw s); try assumption. rewrite D. reflexivity.
+  - destruct P as (A & B & C & D & _). split; [|assumption]. apply (InvW_of_raw s); try assumption.
+    rewrite D. apply upd_other. lia.
+Qed.
+
+Lemma act_rw_unreg : forall s j, InvW s -> 0 <= j < 16 -> rw_reg s j = true ->
+  okr (StepW s) (raw_unregister s j).
+Proof.
+  intros s j I J RT. eapply okr_weaken; [apply (raw_unregister_ok s j (InvW_InvE _ I) RT)|].
+  intros s' (A & B & C & D & _). split; [|assumption]. apply (InvW_of_raw s); try assumption.
+  rewrite D. apply upd_other. lia.
+Qed.
+
+Lemma act_rw_post : forall s j, InvW s -> StepW s (raw_post s j).
+Proof.
+  intros s j I. unfold raw_post.
+  assert (G : forall c x, StepW s (let '(k1, _) := k_write (kern s) (rw_wfd s j) c x in set_kern s k1)).
+  { intros c x. pose proof (kstable_write (kern s) (rw_wfd s j) c x) as K.
+    destruct (k_write (kern s) (rw_wfd s j) c x) as [k1 o]. cbn [fst] in K.
+    split; [apply InvW_kstable; assumption|apply Fr_set_kern; apply (kt_nwait _ _ K)]. }
+  destruct (efd_raw s =? 0); apply G.
+Qed.
+
+(* ---------- the kick descriptor of the epoll methods (event_rx_on / event_rx_off) ---------- *)
+Record kicksame (s s' : core) : Prop := {
+  kk_fdt : fdt s' = fdt s; kk_active : active s' = active s; kk_handled : handled s' = handled s;
+  kk_numfds : numfds s' = numfds s; kk_method : method s' = method s; kk_notify : notify s' = notify s;
+  kk_tfd : tfd s' = tfd s; kk_er : efd_raw s' = efd_raw s; kk_pfds : pfds s' = pfds s; kk_pkeys : pkeys s' = pkeys s;
+  kk_heap : heap s' = heap s; kk_tasks : tasks s' = tasks s; kk_cur : cur s' = cur s;
+  kk_rr : rw_reg s' = rw_reg s; kk_rf : rw_rfd s' = rw_rfd s; kk_rwf : rw_wfd s' = rw_wfd s;
+  kk_trace : trace s' = trace s; kk_evc : ev_count s' = ev_count s;
+}.
+
+Lemma kick_install : forall s s' fd wr k', InvE s -> is_epoll s = true -> active_ref s = 0 ->
+  kicksame s s' -> active_fd s' = fd -> active_ref s' = 1 -> active_wr s' = wr -> kern s' = k' ->
+  numobjs s' = numobjs s + 1 ->
+  1000 <= fd ->
+  ((exists v, k_open (kern s) fd = Some v /\ vkind v = K_EVENTFD) /\ wr = -1 \/ pipe_ok (kern s) fd wr) ->
+  (forall k0, registered (fdt s k0) = true -> fdnum (fdt s k0) <> fd) ->
+  ep_find (ep (kern s)) fd = false ->
+  (forall j, rw_reg s j = true -> rw_rfd s j <> fd) ->
+  kctl (kern s) k' -> ep k' = ep (kern s) ++ [ctl_ent fd 0 (-1)] ->
+  InvE s'.
+Proof.
+  intros s s' fd wr k' [A B C D E G H] EP AR0 KS AF AR AW KE NO F1000 KIND INJ ABS RAWS KC EPK.
+  assert (EE : is_epoll s' = true) by (unfold is_epoll in *; rewrite (kk_method _ _ KS); assumption).
+  assert (OPN : exists v, k_open (kern s) fd = Some v /\ (vkind v = K_EVENTFD \/ vkind v = K_PIPE_R)).
+  { destruct KIND as [((v & V1 & V2) & _)|(_ & _ & v & vw & V1 & V2 & _)]; exists v; tauto. }
+  assert (LV : forall k0, live s' (-1) k0 <-> live s (-1) k0) by (intros; unfold live; rewrite (kk_fdt _ _ KS); tauto).
+  constructor.
+  - eapply FdInv_rebuild_ep with (s := s); try eassumption; try apply KS.
+    + intros k0. rewrite (kk_fdt _ _ KS). tauto.
+    + intros x. rewrite KE. apply (kctl_open _ _ _ KC).
+    + intros e He. rewrite KE, EPK in He. apply in_app_iff in He. unfold entry_ok. rewrite AF, AR, (kk_tfd _ _ KS), (kk_fdt _ _ KS).
+      destruct He as [He|[<-|[]]].
+      * destruct (fv_ent _ _ A e He) as [(L&Q)|[(_&_&Q&_)|Q]]; [left; split; [apply LV; assumption|exact Q]|lia|right; right; exact Q].
+      * right; left. cbn. repeat split; assumption.
+    + intros k0 L R. apply LV in L. rewrite (kk_fdt _ _ KS) in *. destruct (fv_has _ _ A EP k0 L R) as (e & He & Q).
+      exists e. split; [rewrite KE, EPK; apply in_app_iff; left; assumption|exact Q].
+    + intros k0 L R. apply LV in L. rewrite (kk_fdt _ _ KS) in *. rewrite KE, EPK, ep_find_app, (fv_none _ _ A EP k0 L R).
+      cbn. destruct (Z.eqb_spec fd (fdnum (fdt s k0))) as [Q|Q]; [|reflexivity].
+      exfalso. apply (INJ k0); [apply live_none in L; tauto|congruence].
+    + rewrite KE, EPK. apply NoDup_fd_app; [apply (fv_nodup _ _ A)|exact ABS].
+    + intros e He. rewrite KE, EPK in He. rewrite KE, (kctl_get _ _ _ KC). apply in_app_iff in He.
+      destruct He as [He|[<-|[]]]; [apply (fv_ealloc _ _ A); assumption|].
+      cbn. destruct OPN as (v & V & _). apply k_open_some_get. congruence.
+    + right. assumption.
+    + intros _. exists (ctl_ent fd 0 (-1)). rewrite KE, EPK, AF. split; [apply in_app_iff; right; left; reflexivity|split; reflexivity].
+  - intros k0. apply sync_at_same with (s := s); [rewrite (kk_fdt _ _ KS); reflexivity|unfold is_epoll; rewrite (kk_method _ _ KS); reflexivity|rewrite (kk_notify _ _ KS); tauto|rewrite (kk_pfds _ _ KS); reflexivity|apply B].
+  - assert (FL : flt k' = flt (kern s)) by (destruct KC as (_&_&_&_&->); reflexivity).
+    destruct C. constructor; rewrite ?(kk_rr _ _ KS), ?(kk_rf _ _ KS), ?(kk_rwf _ _ KS), ?(kk_fdt _ _ KS), ?(kk_er _ _ KS),
+      ?(kk_tfd _ _ KS), ?KE, ?FL, ?AF, ?AR, ?AW; try assumption.
+    + intros j J. specialize (dy_kern j J). destruct (efd_raw s =? 0); [eapply pipe_ok_kctl|eapply evfd_ok_kctl]; eassumption.
+    + intros _. split; [assumption|]. split.
+      * destruct OPN as (v & V1 & V2). exists v. rewrite (kctl_open _ _ _ KC). tauto.
+      * destruct KIND as [(_ & ->)|P]; [left; reflexivity|right; eapply pipe_ok_kctl; eassumption].
+    + intros Q. discriminate.
+    + intros _. exact RAWS.
+    + destruct dy_tfd as [T|(T & v & V1 & V2)]; [left; assumption|right]. split; [assumption|].
+      exists v. rewrite (kctl_get _ _ _ KC). tauto.
+    + intros e He Q. rewrite EPK in He. apply in_app_iff in He. rewrite (kctl_open _ _ _ KC).
+      destruct He as [He|[<-|[]]]; [apply (dy_tfdent e He Q)|discriminate Q].
+  - rewrite (kk_heap _ _ KS). exact D.
+  - apply (TaskInv_same s); [apply KS..|exact E].
+  - destruct G as [G1 G2]. constructor.
+    + rewrite (kk_numfds _ _ KS), (kk_fdt _ _ KS). exact G1.
+    + rewrite NO, G2, (kk_numfds _ _ KS), (kk_heap _ _ KS), (kk_tasks _ _ KS), (kk_evc _ _ KS), AR, AR0.
+      unfold curl. rewrite (kk_cur _ _ KS). lia.
+  - destruct H as [H1 H2 H3 H4]. constructor.
+    + rewrite (kk_trace _ _ KS). assumption.
+    + rewrite (kk_method _ _ KS). assumption.
+    + rewrite KE. destruct KC as (_&_&_&_&->). intros _. apply H3. assumption.
+    + rewrite KE. eapply kctl_KInv; eassumption.
+Qed.
+
+Lemma grab_any : forall k in_use, kfresh k ->
+  match eventfd_grab k in_use with
+  | (k', inl fd, u) => fd = next_fd k /\ kstable k k' /\ kfresh k' /\ k_open k' fd = Some (vfd0 K_EVENTFD)
+  | (k', inr e, u) => k' = k
+  end.
+Proof.
+  intros k in_use F. unfold eventfd_grab.
+  assert (OLD : forall iu,
+    match (if negb (iu =? 0) then
+             match k_eventfd k false with
+             | (k1, inl fd) => (k1, inl fd, iu)
+             | (k1, inr e) => if is_enosys e then (k1, inr ENOSYS, 0) else (k1, inr e, iu)
+             end
+           else (k, inr ENOSYS, 0)) with
+    | (k', inl fd, u) => fd = next_fd k /\ kstable k k' /\ kfresh k' /\ k_open k' fd = Some (vfd0 K_EVENTFD)
+    | (k', inr e, u) => k' = k
+    end).
+  { intros iu. destruct (negb (iu =? 0)); [|reflexivity].
+    pose proof (eventfd_spec k false F) as S. destruct (k_eventfd k false) as [k1 [fd|e]].
+    - tauto.
+    - destruct S as [-> _]. destruct (is_enosys e); reflexivity. }
+  destruct (in_use =? 2); [|apply OLD].
+  pose proof (eventfd_spec k true F) as S. destruct (k_eventfd k true) as [k1 [fd|e]].
+  - tauto.
+  - destruct S as [-> _]. destruct (is_enosys e || is_einval e); [apply OLD|reflexivity].
+Qed.
+
+Definition RxOnPost (s s' : core) : Prop :=
+  InvE s' /\ Fr s s' /\ active_ref s' = 1 /\ numobjs s' = numobjs s + 1 /\
+  ev_pending s' = ev_pending s /\ ev_batch s' = ev_batch s /\ ev_count s' = ev_count s /\
+  ev_reg s' = ev_reg s /\ use_raw s' = use_raw s /\ method s' = method s /\ rw_reg s' = rw_reg s.
+
+(* the part of event_rx_on after the descriptor has been obtained *)
+Definition rx_on_tail (s : core) : res * bool :=
+  let s := set_activefd s (active_fd s) (active_ref s + 1) in
+  let '(s, e) := ctl_retry s CTL_ADD (active_fd s) 0 (-1) in
+  match e with
+  | None => (R (set_numobjs s (numobjs s + 1)), false)
+  | Some _ => (R s, true)
+  end.
+
+Lemma rx_on_tail_ok : forall s0 sm s fd wr, InvE sm -> is_epoll sm = true -> active_ref sm = 0 ->
+  kicksame sm s -> active_fd s = fd -> active_ref s = 0 -> active_wr s = wr -> kern s = kern sm ->
+  numobjs s = numobjs sm -> ev_pending s = ev_pending sm -> ev_batch s = ev_batch sm -> ev_reg s = ev_reg sm ->
+  use_raw s = use_raw sm -> epoch s = epoch sm -> tepoch s = tepoch sm ->
+  1000 <= fd ->
+  ((exists v, k_open (kern sm) fd = Some v /\ vkind v = K_EVENTFD) /\ wr = -1 \/ pipe_ok (kern sm) fd wr) ->
+  (forall k0, registered (fdt sm k0) = true -> fdnum (fdt sm k0) <> fd) ->
+  ep_find (ep (kern sm)) fd = false ->
+  (forall j, rw_reg sm j = true -> rw_rfd sm j <> fd) ->
+  Fr s0 sm -> numobjs sm = numobjs s0 -> ev_pending sm = ev_pending s0 -> ev_batch sm = ev_batch s0 ->
+  ev_count sm = ev_count s0 -> ev_reg sm = ev_reg s0 -> use_raw sm = use_raw s0 -> method sm = method s0 ->
+  rw_reg sm = rw_reg s0 ->
+  snd (rx_on_tail s) = false /\ okr (RxOnPost s0) (fst (rx_on_tail s)).
+Proof.
+  intros s0 sm s fd wr I EP AR0 KS AF AR AW KE NO E1 E2 E3 E4 E5 E6 F1000 KIND INJ ABS RAWS F0 N0 P0 B0 C0 R0 U0 M0 RR0.
+  unfold rx_on_tail. cbv zeta. sp. rewrite AF.
+  set (s1 := set_activefd s fd (active_ref s + 1)).
+  destruct (ctl_retry_spec s1 CTL_ADD fd 0 (-1)) as (k' & CR & KC & EPK). change (kern s1) with (kern s) in *.
+  rewrite KE in *.
+  assert (OP : k_open (kern sm) fd <> None).
+  { destruct KIND as [((v & V1 & _) & _)|(_ & _ & v & vw & V1 & _)]; congruence. }
+  rewrite (ctl_pure_add _ _ _ _ OP ABS) in *. cbn [fst snd] in *. rewrite CR. cbn [fst snd].
+  split; [reflexivity|]. cbn [okr].
+  set (sF := set_numobjs (set_kern s1 k') (numobjs (set_kern s1 k') + 1)).
+  assert (IF : InvE sF).
+  { apply (kick_install sm sF fd wr k' I EP AR0); try assumption; try reflexivity.
+    - destruct KS. constructor; subst sF s1; sp; assumption.
+    - subst sF s1. sp. rewrite AR. reflexivity.
+    - subst sF s1. sp. rewrite NO. reflexivity. }
+  unfold RxOnPost. split; [assumption|]. split.
+  - eapply Fr_trans; [exact F0|]. destruct KC as (_&_&_&NW&_).
+    constructor; subst sF s1; sp; rewrite ?(kk_heap _ _ KS), ?(kk_active _ _ KS), ?(kk_handled _ _ KS), ?(kk_cur _ _ KS), ?E2, ?E5;
+      try reflexivity; try lia; try tauto.
+    + Show. assumption.
+    + unfold tmeasure, tcount, curl. sp. rewrite (kk_cur _ _ KS), E5, E6. lia.
+  - subst sF s1. sp. rewrite AR, NO, N0, E1, E2, (kk_evc _ _ KS), E3, E4, (kk_method _ _ KS), (kk_rr _ _ KS).
+    repeat split; try assumption; try lia.
+Qed.
